@@ -59,6 +59,9 @@ class RasterImage:
 
         if 'transparency' in pillow_image.info:
             pillow_image = pillow_image.convert('RGBA')
+        elif pillow_image.mode.startswith('I;16'):
+            # 16-bit grayscale images, scale samples to 8 bits
+            pillow_image = pillow_image.point(lambda i: i / 256).convert('L')
         elif pillow_image.mode in ('1', 'P', 'I'):
             pillow_image = pillow_image.convert('RGB')
 
